@@ -938,6 +938,30 @@ class SymCSC:
     def tocsc(self):
         return self
 
+    def __getitem__(self, key):
+        """column selection  X[:, cols]  (what scipy's CSC supports cheaply): a CSC matrix of the selected columns"""
+        if isinstance(key, tuple) and len(key) == 2 and isinstance(key[0], slice) and key[0] == slice(None):
+            cols = key[1]
+            if isinstance(cols, slice):
+                cols = list(range(*cols.indices(self.shape[1])))
+            cols = [int(c) for c in _np.asarray(cols).ravel()]
+            data, idx, ptr = [], [], [0]
+            for c in cols:
+                if c < 0:
+                    c += self.shape[1]
+                if not 0 <= c < self.shape[1]:
+                    raise IndexError("column index (%d) out of range" % c)
+                for k in range(int(self.indptr[c]), int(self.indptr[c + 1])):
+                    data.append(self.data[k])
+                    idx.append(int(self.indices[k]))
+                ptr.append(len(data))
+            d = _np.empty(len(data), dtype=object)
+            for i, v in enumerate(data):
+                d[i] = v
+            return SymCSC(d.view(SArr) if len(data) else zeros(0), _np.array(idx, dtype=_np.int32), _np.array(ptr, dtype=_np.int32),
+                          (self.shape[0], len(cols)))
+        raise NotImplementedError("SymCSC indexing %r" % (key,))
+
     def copy(self):
         return SymCSC(self.data.copy(), self.indices.copy(), self.indptr.copy(), self.shape)
 
